@@ -331,7 +331,7 @@ class Exchange(Scenario):
                 "chunks": rchunks,
                 "via": rng.choice(["iter", "iter", "write", "mixed"]),
                 "closable": rng.random() < 0.7,
-                "restart": rng.random() < 0.12,
+                "restart": rng.choice([False] * 15 + [True, "in_first_next"]),
             },
         }
 
@@ -441,16 +441,23 @@ class Exchange(Scenario):
                     record["read"] = drive_reads(w, appspec.get("read", []), to_end=True)
                 else:
                     record["read"] = drive_reads(w, appspec.get("read", []), to_end=True, limit=len(rq["body"]))
-            if appspec.get("restart"):
-                # PEP 3333: before any output was sent, an error handler may replace the pending response by calling
-                # start_response again with exc_info; the client must get the second response only
-                start_response("500 INTERNAL SERVER ERROR", [("X-Discarded", "first-attempt"), ("Content-Length", "0")])
+            restart = appspec.get("restart")
+            lazy_restart = restart == "in_first_next" and via == "iter"
+
+            def replace_response():
                 try:
                     raise RuntimeError("first attempt failed")
                 except RuntimeError:
                     import sys
 
-                    write = start_response(status, list(rheaders), sys.exc_info())
+                    return start_response(status, list(rheaders), sys.exc_info())
+
+            if restart:
+                # PEP 3333: before any output was sent, an error handler may replace the pending response by calling
+                # start_response again with exc_info; the client must get the second response only
+                write = start_response("500 INTERNAL SERVER ERROR", [("X-Discarded", "first-attempt"), ("Content-Length", "0")])
+                if not lazy_restart:
+                    write = replace_response()
                 record["restarted"] = True
             else:
                 write = start_response(status, list(rheaders))
@@ -458,11 +465,17 @@ class Exchange(Scenario):
             class Body:
                 def __init__(self, items):
                     self.it = iter(items)
+                    self.first = True
 
                 def __iter__(self):
                     return self
 
                 def __next__(self):
+                    if self.first:
+                        self.first = False
+                        if lazy_restart:
+                            # producing the first chunk failed and the iterable itself installs the replacement: still before any output
+                            replace_response()
                     return next(self.it)
 
             if via == "write":
